@@ -173,6 +173,33 @@ def run_case(case, workdir):
                 elif not same(val, exp):
                     shp = [getattr(v, "shape", None) for v in val] if isinstance(val, list) else getattr(val, "shape", None)
                     rec.fail("values", sub, "wrong data; got shape %s" % (shp,))
+    # histories on ONE level stream object: consecutive reads through the same object
+    nfl = len(names)
+    for lv in range(ref.nlevels):
+        nb = len(ref.boxes[lv])
+        if case.get("boxes_only") and lv != case.get("devlevel"):
+            continue
+        for ftag, fidx in ((["list", list(range(1, nfl))], list(range(1, nfl))), (["slice", 1, None, None], slice(1, None)),
+                           (["int", nfl - 1], nfl - 1), (["array", [nfl - 1]], [nfl - 1])):
+            if nfl < 2:
+                continue
+            with vpool.controlled():
+                def hist():
+                    s_ = pck[S.decode(ftag)][lv]
+                    outs = [s_[b] for b in range(nb)] + [s_[list(range(nb))]] + [s_[nb - 1]] + [s_[slice(None)]]
+                    return outs
+                st, val = call(hist)
+            rec.exe([dh, "stream_history", lv, ftag], nontrivial=True, trans=nb + 3)
+            sub = {"field": ftag, "level": lv, "box": ["history", "s=pck[f][lv]; s[0..nb-1]; s[[all]]; s[nb-1]; s[:]"], "class": "A"}
+            if st == "exc":
+                rec.fail("raised", sub, exc_text(val))
+                continue
+            exps = [expected(ref, lv, fidx, b) for b in range(nb)] + [expected(ref, lv, fidx, list(range(nb)))] + \
+                   [expected(ref, lv, fidx, nb - 1)] + [expected(ref, lv, fidx, list(range(nb)))]
+            for k, (v, e) in enumerate(zip(val, exps)):
+                if not same(v, e):
+                    rec.fail("values", dict(sub, call=k), "read %d through a re-used stream object returned wrong data" % k)
+                    break
     # multi-box selections under every order of the per-box read tasks (the result must stay in requested order)
     from .. import explorer
     for lv in range(ref.nlevels):
